@@ -232,3 +232,126 @@ Theorem C05_accepted_request_commitments : forall (K : bytes -> bytes) (cr : Sig
                     (Compose_bidder.req_digest K rq) (b_sig b).
 Proof. exact Compose_bidder.accepted_commitments. Qed.
 Print Assumptions C05_accepted_request_commitments.
+
+(* ---- the full round trip (proofs/Compose_provider.v): C19 o C05 o C01 o C12 o C07 o C02 o C03 ---------------
+   Both nodes modelled, every signer oracle instantiated.  Glue, all explicit:
+   * one hash function K and one signature library (rc = crypto.SigToPub, vr = crypto.VerifySignature, ao =
+     crypto.PubkeyToAddress) on both nodes; each node has its own key signer (signB, signP); digests have
+     between 1 and 64 bytes (Keccak-256: 32); recover-after-sign (premise of C02_roundtrip) for both keys
+     pkB, pkP; the provider's key signer answers;
+   * the provider's handler reads the bidder's message as decoded from the wire (NoPanic_proofs.conv_bid);
+   * what the bidder's stream to that provider does is what the provider's handler does
+     ([Compose_provider.reply_of]: the frame it wrote, else an error / end of stream, else nothing), and the
+     message on the wire is the handler's commitment ([Compose_provider.frame_of]);
+   * the provider's history is the accepting one ([Compose_provider.accepting_run]: the engine takes the bid and
+     accepts its digest before the handler's deadline, the allowance check says yes for the bidder's address,
+     the chain client takes the settlement transaction, the write succeeds).
+   Non-vacuity: Compose_provider.ex_round_trip (and ex_round_trip_rejected for the refusing case). *)
+From MevVerif Require model.ProviderSvc model.PreconfProvider proofs.Compose_provider.
+
+(* For a request accepted by the bidder API rules (numbers Go int64 values) and a provider that answers before the
+   bidder's deadline: SendBid surfaces for this provider exactly the commitment the provider wrote -- once,
+   embedding exactly the bid sent, with ProviderAddress = the address of the provider's key; its digest is the
+   EIP-712 PreConfCommitment hash over the request's values, the EIP-712 bid digest and the bidder's bid
+   signature; and the provider had its settlement transaction for that very commitment accepted before. *)
+Theorem C05_round_trip_honest :
+  forall (K : bytes -> bytes) (rc : bytes -> bytes -> outcome bytes) (vr : bytes -> bytes -> bytes -> bool)
+         (ao : bytes -> bytes) (signB signP : bytes -> outcome bytes),
+  (forall m, (1 <= length (K m) <= 64)%nat) ->
+  forall pkB pkP : bytes,
+  (forall hh sg, signB hh = Ok sg ->
+     length sg = 65%nat /\ (nth_error sg 64 = Some 0 \/ nth_error sg 64 = Some 1) /\
+     rc hh sg = Ok pkB /\ vr pkB hh (firstn 64 sg) = true) ->
+  (forall hh sg, signP hh = Ok sg ->
+     length sg = 65%nat /\ (nth_error sg 64 = Some 0 \/ nth_error sg 64 = Some 1) /\
+     rc hh sg = Ok pkP /\ vr pkP hh (firstn 64 sg) = true) ->
+  (forall hh, exists sg, signP hh = Ok sg) ->
+  forall rq : BidderApi.request,
+  Rules.bidder_bid_ok (BidderApi.r_txs rq) (BidderApi.r_amount rq) (BidderApi.r_bn rq) (BidderApi.r_ds rq)
+                      (BidderApi.r_de rq) = true ->
+  (BidderApi.r_bn rq <= Rules.int64_max)%Z -> (BidderApi.r_ds rq <= Rules.int64_max)%Z ->
+  (BidderApi.r_de rq <= Rules.int64_max)%Z ->
+  forall view D rn,
+  send_bid (Compose_bidder.signer_oracles K
+              {| Signer.recover := rc; Signer.verify_rs := vr; Signer.addr_of := ao; Signer.sign := signB |})
+           (Compose_bidder.args_of (BidderApi.forward rq)) view D = SRun rn ->
+  forall (addr : bytes) (h sid : N) (allowf : bytes -> bool),
+  allowf (ao pkB) = true ->
+  forall p, In p view -> p_type p = TProvider ->
+  let S := PreconfProvider.run K ProviderSvc.rules_validators (PreconfProvider.node_wiring addr)
+             (Compose_provider.accepting_run K
+                {| Signer.recover := rc; Signer.verify_rs := vr; Signer.addr_of := ao; Signer.sign := signP |}
+                (NoPanic_proofs.conv_bid (r_sent rn)) allowf h sid) in
+  p_reply p = Compose_provider.reply_of S h ->
+  p_time p < D ->
+  exists c : PreconfProvider.preconf,
+    Compose_provider.first_write h (PreconfProvider.heff S) = Some c /\
+    contribution (Compose_bidder.signer_oracles K
+                    {| Signer.recover := rc; Signer.verify_rs := vr; Signer.addr_of := ao; Signer.sign := signB |})
+                 (r_sent rn) D p = [(p_time p, set_prov (Compose_provider.frame_of c) (ao pkP))] /\
+    In (p_time p, set_prov (Compose_provider.frame_of c) (ao pkP)) (r_delivered rn) /\
+    c_bid (set_prov (Compose_provider.frame_of c) (ao pkP)) = Some (r_sent rn) /\
+    c_prov (set_prov (Compose_provider.frame_of c) (ao pkP)) = ao pkP /\
+    c_dig (set_prov (Compose_provider.frame_of c) (ao pkP)) =
+      Eip712.eip712_commitment K (join 44 (BidderApi.r_txs rq)) (dec_value (BidderApi.r_amount rq))
+        (Z.to_N (BidderApi.r_bn rq)) (Z.to_N (BidderApi.r_ds rq)) (Z.to_N (BidderApi.r_de rq))
+        (Compose_bidder.req_digest K rq) (b_sig (r_sent rn)) /\
+    In (PreconfProvider.HStored h true) (PreconfProvider.heff S) /\
+    exists amt, PreconfProvider.parse_bigint (BidderApi.r_amount rq) = Some amt /\
+                In (PreconfProvider.HSend h addr (PreconfProvider.calldata K amt c)) (PreconfProvider.heff S).
+Proof. exact Compose_provider.round_trip_honest. Qed.
+Print Assumptions C05_round_trip_honest.
+
+(* The general accepting case: ANY provider history (any interleaving with other handlers) with both oracles
+   instantiated, in which the handler that serves the bidder's stream wrote a commitment c. *)
+Theorem C05_round_trip_accepting :
+  forall (K : bytes -> bytes) (rc : bytes -> bytes -> outcome bytes) (vr : bytes -> bytes -> bytes -> bool)
+         (ao : bytes -> bytes) (signB signP : bytes -> outcome bytes),
+  (forall m, K m <> []) ->
+  forall pkP : bytes,
+  (forall hh sg, signP hh = Ok sg ->
+     length sg = 65%nat /\ (nth_error sg 64 = Some 0 \/ nth_error sg 64 = Some 1) /\
+     rc hh sg = Ok pkP /\ vr pkP hh (firstn 64 sg) = true) ->
+  forall a view D rn,
+  send_bid (Compose_bidder.signer_oracles K
+              {| Signer.recover := rc; Signer.verify_rs := vr; Signer.addr_of := ao; Signer.sign := signB |})
+           a view D = SRun rn ->
+  forall (addr : bytes) (evs : list PreconfProvider.event),
+  let crP := {| Signer.recover := rc; Signer.verify_rs := vr; Signer.addr_of := ao; Signer.sign := signP |} in
+  Compose_provider.constructed_history K crP ProviderSvc.rules_validators (PreconfProvider.node_wiring addr) evs ->
+  let S := PreconfProvider.run K ProviderSvc.rules_validators (PreconfProvider.node_wiring addr) evs in
+  forall (h : N) (allowf : bytes -> bool),
+  ProviderSvc.nget h (PreconfProvider.arr S) =
+    Some (PreconfProvider.role_bidder,
+          PreconfProvider_signed.oracle_of K crP allowf (Some (NoPanic_proofs.conv_bid (r_sent rn)))) ->
+  forall p, In p view -> p_type p = TProvider -> p_reply p = Compose_provider.reply_of S h ->
+  forall c, Compose_provider.first_write h (PreconfProvider.heff S) = Some c ->
+  p_time p < D ->
+  contribution (Compose_bidder.signer_oracles K
+                  {| Signer.recover := rc; Signer.verify_rs := vr; Signer.addr_of := ao; Signer.sign := signB |})
+               (r_sent rn) D p = [(p_time p, set_prov (Compose_provider.frame_of c) (ao pkP))] /\
+  In (p_time p, set_prov (Compose_provider.frame_of c) (ao pkP)) (r_delivered rn) /\
+  c_bid (set_prov (Compose_provider.frame_of c) (ao pkP)) = Some (r_sent rn) /\
+  c_prov (set_prov (Compose_provider.frame_of c) (ao pkP)) = ao pkP /\
+  c_dig (set_prov (Compose_provider.frame_of c) (ao pkP)) = PreconfProvider.c_dig c /\
+  c_sig (set_prov (Compose_provider.frame_of c) (ao pkP)) = PreconfProvider.c_sig c.
+Proof. exact Compose_provider.round_trip_accepting. Qed.
+Print Assumptions C05_round_trip_accepting.
+
+(* Nothing is surfaced for a provider that refuses: whenever its handler has returned with any class other than
+   "written" / "write failed" -- wrong role, unreadable bid, bad signature, allowance refused, format refused,
+   engine REJECTED, undefined status, deadline or context end, construction failure, store failure -- whatever else
+   happened on that node, the provider contributes nothing to the bidder's channel. *)
+Theorem C05_round_trip_refused :
+  forall (K : bytes -> bytes) (rc : bytes -> bytes -> outcome bytes) (vr : bytes -> bytes -> bytes -> bool)
+         (ao : bytes -> bytes) (signB : bytes -> outcome bytes) D rn
+         (addr : bytes) (evs : list PreconfProvider.event) (h : N) p,
+  let S := PreconfProvider.run K ProviderSvc.rules_validators (PreconfProvider.node_wiring addr) evs in
+  p_reply p = Compose_provider.reply_of S h ->
+  forall r, ProviderSvc.nget h (PreconfProvider.hs S) = Some (PreconfProvider.HDone r) ->
+  r <> PreconfProvider.RWritten -> r <> PreconfProvider.RWriteErr ->
+  contribution (Compose_bidder.signer_oracles K
+                  {| Signer.recover := rc; Signer.verify_rs := vr; Signer.addr_of := ao; Signer.sign := signB |})
+               (r_sent rn) D p = [].
+Proof. exact Compose_provider.round_trip_refused_classes. Qed.
+Print Assumptions C05_round_trip_refused.
